@@ -41,6 +41,8 @@ struct Model {
     rolled_back: bool,
     /// number of update/delete statements so far that matched rows
     touched: u64,
+    /// `budget` part: statements may be refused with ResultTooLarge
+    budget: bool,
 }
 
 #[derive(Clone, Copy, PartialEq, Eq, Debug)]
@@ -819,8 +821,20 @@ fn tn() -> String {
 
 /// Every case gets a fresh router (store + engines): nothing carries over between cases, and a
 /// replay runs in exactly the environment of the failing case.
-fn with_router(ctx: &mut CaseCtx, f: &dyn Fn(&mut CaseCtx, &Sut) -> Result<(), Fail>) -> Result<(), Fail> {
-    let sut = Sut { router: QueryRouter::new() };
+fn with_router(ctx: &mut CaseCtx, budget: Option<u8>, f: &dyn Fn(&mut CaseCtx, &Sut) -> Result<(), Fail>) -> Result<(), Fail> {
+    let router = match budget {
+        None => QueryRouter::new(),
+        Some(b) => {
+            let store = tensor_store::TensorStore::new();
+            let cfg = relational_engine::RelationalConfig::default().with_max_btree_entries(b as usize);
+            QueryRouter::with_engines(
+                std::sync::Arc::new(RelationalEngine::with_store_and_config(store.clone(), cfg)),
+                std::sync::Arc::new(graph_engine::GraphEngine::with_store(store.clone())),
+                std::sync::Arc::new(vector_engine::VectorEngine::with_store(store)),
+            )
+        },
+    };
+    let sut = Sut { router };
     f(ctx, &sut)
 }
 
@@ -878,6 +892,35 @@ enum DmlOutcome {
     Rejected,
     /// engine and model disagree and the disagreement is a recorded finding: stop the case
     Diverged,
+    /// `budget` part: refused for lack of ordered-index budget; the caller re-reads the table
+    Refused,
+}
+
+fn is_budget(e: &RelationalError) -> bool {
+    matches!(e, RelationalError::ResultTooLarge { .. })
+}
+
+/// After a refused statement the model takes the table's content from a full scan (no index is
+/// consulted for `Condition::True`) and the set of ordered indexes from the catalogue: what a refused
+/// statement may leave behind is not C04's business, that index reads agree with that scan is.
+fn resync(ctx: &mut CaseCtx, eng: &RelationalEngine, m: &mut Model, what: &str) -> Result<bool, Fail> {
+    let rows = match eng.select(&tn(), Condition::True) {
+        Ok(r) => r,
+        Err(e) if is_timeout(&e) => return Ok(false),
+        Err(e) => return Err(Fail::new("harness", format!("scan after refused {what}: {e:?}"))),
+    };
+    m.rows.clear();
+    for r in &rows {
+        let vals: Option<Vec<V>> = r.values.iter().map(|(_, v)| from_value(v)).collect();
+        let Some(vals) = vals else { return Ok(false) };
+        m.next_id = m.next_id.max(r.id + 1);
+        m.rows.insert(r.id, vals);
+    }
+    let cols: Vec<Col> = std::iter::once(Col::Id).chain((0..m.cols.len()).map(|i| Col::C(i as u8))).collect();
+    m.btree = cols.iter().copied().filter(|c| eng.has_btree_index(&tn(), &c.name())).collect();
+    ctx.set_nontrivial();
+    ctx.label(format!("budget: refused {what}"));
+    Ok(true)
 }
 
 /// Apply one DML statement to engine and model. `tx`: inside an explicit transaction.
@@ -891,6 +934,10 @@ fn apply_dml(ctx: &mut CaseCtx, eng: &RelationalEngine, m: &mut Model, d: &Dml, 
             };
             match (r, valid) {
                 (Ok(id), true) => {
+                    // a refused insert may have used up an id
+                    if m.budget && id > m.next_id {
+                        m.next_id = id;
+                    }
                     if id != m.next_id {
                         ctx.fail("insert:row-id", format!("step {step}: insert returned id {id}, expected next id {}", m.next_id))?;
                         return Ok(DmlOutcome::Diverged);
@@ -909,6 +956,7 @@ fn apply_dml(ctx: &mut CaseCtx, eng: &RelationalEngine, m: &mut Model, d: &Dml, 
                     Ok(DmlOutcome::Diverged)
                 },
                 (Err(e), _) if is_timeout(&e) => Ok(DmlOutcome::Diverged),
+                (Err(e), _) if m.budget && is_budget(&e) => Ok(DmlOutcome::Refused),
                 (Err(e), _) => {
                     ctx.fail(format!("insert:err:{}", err_name(&e)), format!("step {step}: insert of {vals:?} (valid={valid}) failed: {e:?}"))?;
                     Ok(DmlOutcome::Diverged)
@@ -956,6 +1004,7 @@ fn apply_dml(ctx: &mut CaseCtx, eng: &RelationalEngine, m: &mut Model, d: &Dml, 
                     Ok(DmlOutcome::Diverged)
                 },
                 (Err(e), _) if is_timeout(&e) => Ok(DmlOutcome::Diverged),
+                (Err(e), _) if m.budget && is_budget(&e) => Ok(DmlOutcome::Refused),
                 (Err(e), _) => {
                     ctx.fail(format!("update:err:{}", err_name(&e)), format!("step {step}: update {cond:?} set {sets:?} (valid={valid}) failed: {e:?}"))?;
                     Ok(DmlOutcome::Diverged)
@@ -1063,7 +1112,7 @@ fn dml_name(d: &Dml) -> &'static str {
 }
 
 fn run_case(case: &Case, ctx: &mut CaseCtx, probe_every_write: bool) -> Result<(), Fail> {
-    with_router(ctx, &|ctx, sut| run_case_on(case, ctx, sut, probe_every_write))
+    with_router(ctx, case.budget, &|ctx, sut| run_case_on(case, ctx, sut, probe_every_write))
 }
 
 fn run_case_on(case: &Case, ctx: &mut CaseCtx, sut: &Sut, probe_every_write: bool) -> Result<(), Fail> {
@@ -1071,7 +1120,7 @@ fn run_case_on(case: &Case, ctx: &mut CaseCtx, sut: &Sut, probe_every_write: boo
     if let Err(e) = eng.create_table(&tn(), to_schema(&case.cols)) {
         return Err(Fail::new("create-table:err", format!("create_table failed: {e:?}")));
     }
-    let mut m = Model { cols: case.cols.clone(), rows: BTreeMap::new(), next_id: 1, hash: BTreeSet::new(), btree: BTreeSet::new(), rolled_back: false, touched: 0 };
+    let mut m = Model { cols: case.cols.clone(), rows: BTreeMap::new(), next_id: 1, hash: BTreeSet::new(), btree: BTreeSet::new(), rolled_back: false, touched: 0, budget: case.budget.is_some() };
     for c in &case.cols {
         ctx.label(format!("col:{}{}", c.ty.name(), if c.nullable { "?" } else { "" }));
     }
@@ -1080,14 +1129,21 @@ fn run_case_on(case: &Case, ctx: &mut CaseCtx, sut: &Sut, probe_every_write: boo
         let probe_now;
         match op {
             Op::Dml(d) => {
+                let mut refused = false;
                 match apply_dml(ctx, eng, &mut m, d, None, step)? {
                     DmlOutcome::Diverged => return Ok(()),
                     DmlOutcome::Applied | DmlOutcome::Rejected => {},
+                    DmlOutcome::Refused => {
+                        if !resync(ctx, eng, &mut m, dml_name(d))? {
+                            return Ok(());
+                        }
+                        refused = true;
+                    },
                 }
                 if !verify_table(ctx, sut, &m, dml_name(d), step)? {
                     return Ok(());
                 }
-                probe_now = probe_every_write;
+                probe_now = probe_every_write || refused;
             },
             Op::TextDml(d) => {
                 let out = match apply_text_dml(ctx, &sut.router, &mut m, d, step)? {
@@ -1097,7 +1153,7 @@ fn run_case_on(case: &Case, ctx: &mut CaseCtx, sut: &Sut, probe_every_write: boo
                         apply_dml(ctx, eng, &mut m, d, None, step)?
                     },
                 };
-                if matches!(out, DmlOutcome::Diverged) {
+                if matches!(out, DmlOutcome::Diverged | DmlOutcome::Refused) {
                     return Ok(());
                 }
                 if !verify_table(ctx, sut, &m, &format!("text-{}", dml_name(d)), step)? {
@@ -1110,6 +1166,9 @@ fn run_case_on(case: &Case, ctx: &mut CaseCtx, sut: &Sut, probe_every_write: boo
                 let maps: Vec<HashMap<String, Value>> = rows.iter().map(|r| to_map(r, *omit_nulls)).collect();
                 match (eng.batch_insert(&tn(), maps), valid) {
                     (Ok(ids), true) => {
+                        if let (true, Some(first)) = (m.budget, ids.first()) {
+                            m.next_id = m.next_id.max(*first);
+                        }
                         let want: Vec<u64> = (m.next_id..m.next_id + rows.len() as u64).collect();
                         if ids != want {
                             ctx.fail("insert:row-id", format!("step {step}: batch_insert returned ids {ids:?}, expected {want:?}"))?;
@@ -1129,6 +1188,11 @@ fn run_case_on(case: &Case, ctx: &mut CaseCtx, sut: &Sut, probe_every_write: boo
                         return Ok(());
                     },
                     (Err(e), _) if is_timeout(&e) => return Ok(()),
+                    (Err(e), _) if m.budget && is_budget(&e) => {
+                        if !resync(ctx, eng, &mut m, "batch_insert")? {
+                            return Ok(());
+                        }
+                    },
                     (Err(e), _) => {
                         ctx.fail(format!("insert:err:{}", err_name(&e)), format!("step {step}: batch_insert (valid={valid}) failed: {e:?}"))?;
                         return Ok(());
@@ -1137,7 +1201,7 @@ fn run_case_on(case: &Case, ctx: &mut CaseCtx, sut: &Sut, probe_every_write: boo
                 if !verify_table(ctx, sut, &m, "batch_insert", step)? {
                     return Ok(());
                 }
-                probe_now = probe_every_write;
+                probe_now = probe_every_write || m.budget;
             },
             Op::CreateIndex(col) | Op::CreateBtree(col) => {
                 let btree = matches!(op, Op::CreateBtree(_));
@@ -1154,6 +1218,11 @@ fn run_case_on(case: &Case, ctx: &mut CaseCtx, sut: &Sut, probe_every_write: boo
                         }
                     },
                     (Err(RelationalError::IndexAlreadyExists { .. }), true) => ctx.label("op:create index twice (rejected)"),
+                    (Err(e), false) if m.budget && btree && is_budget(&e) => {
+                        if !resync(ctx, eng, &mut m, "create_btree_index")? {
+                            return Ok(());
+                        }
+                    },
                     (r, _) => {
                         ctx.fail("ddl:create-index", format!("step {step}: {op:?} with index present={exists} returned {r:?}"))?;
                         return Ok(());
@@ -1199,6 +1268,13 @@ fn run_case_on(case: &Case, ctx: &mut CaseCtx, sut: &Sut, probe_every_write: boo
                 for d in steps {
                     match apply_dml(ctx, eng, &mut work, d, Some(t), step)? {
                         DmlOutcome::Applied => {},
+                        DmlOutcome::Refused => {
+                            // the transaction goes on after a refused statement
+                            if !resync(ctx, eng, &mut work, &format!("tx-{}", dml_name(d)))? {
+                                let _ = eng.rollback(t);
+                                return Ok(());
+                            }
+                        },
                         DmlOutcome::Rejected | DmlOutcome::Diverged => {
                             // steps inside transactions are generated well typed
                             let _ = eng.rollback(t);
@@ -1278,6 +1354,7 @@ fn main() {
         parts: vec![
             PropPart::new("paths", 12_000, 400_000, paths_strategy, paths_check).shrink_iters(4000).boxed(),
             PropPart::new("big", 600, 10_000, big_part_strategy, big_check).shrink_iters(600).boxed(),
+            PropPart::new("budget", 15_000, 300_000, |_| gen::budget_strategy(), paths_check).shrink_iters(4000).boxed(),
         ],
         children: vec![],
     });
